@@ -20,6 +20,11 @@ structure Codec where
 /-- the trusted-base hypothesis about a compressor: whatever Encode produced, Decode gives back -/
 def Codec.RoundTrips (c : Codec) : Prop := ∀ x y, c.enc x = .ok y → c.dec y = .ok x
 
+/-- the other half of "every body is delivered": Encode does not fail (snappy.Encode has no error
+    result at all; for lz4 this is `C18_lz4_encode_total`, from the documented contract of the block
+    encoder and the size of the buffer lz4.go allocates) -/
+def Codec.Total (c : Codec) : Prop := ∀ x, ∃ y, c.enc x = .ok y
+
 inductive Err
   | tooBig          -- ErrFrameTooBig
   | codec           -- error returned by Compressor.Encode / Decode
@@ -171,18 +176,36 @@ def Framer.decode (f : Framer) (wire : Bytes) : Except Err (Head × Bytes) :=
 
 /-! ### lz4/lz4.go: Cassandra's length-prefixed block format -/
 
-/-- pierrec/lz4 block functions as parameters: `encB src` = `CompressBlock(src, dst)` with a dst of
-    at least `CompressBlockBound`; `decB src n` = `UncompressBlock(src, make([]byte, n))`, the
-    bytes `dst[:n']` actually produced. -/
+/-- pierrec/lz4 `CompressBlockBound(n)`: a destination of at least this many bytes is what the
+    library's documentation asks for ("CompressBlock ... doesn't fail as long as ...") -/
+def blockBound (n : Nat) : Nat := n + n / 255 + 16
+
+/-- pierrec/lz4 block functions as parameters: `encB src n` = `CompressBlock(src, dst)` with
+    `len(dst) = n` (the library reports a too-short destination in TWO ways: `(0, nil)` — here
+    `.ok []` — when no match was emitted, an error when a match was found after the literals had
+    already overflowed `dst`; neither happens for `n ≥ blockBound src.length`);
+    `decB src n` = `UncompressBlock(src, make([]byte, n))`, the bytes `dst[:n']` actually produced. -/
 structure BlockCodec where
-  encB : Bytes → Except Unit Bytes
+  encB : Bytes → Nat → Except Unit Bytes
   decB : Bytes → Nat → Except Unit Bytes
 
+/-- trusted base, part 1: what the block encoder produced INTO A DESTINATION OF AT LEAST THE BOUND
+    decodes back (with a shorter destination `(0, nil)` is a legal answer and decodes to nothing).
+    Non-empty inputs only: pierrec's UncompressBlock refuses an empty destination, and lz4.go never
+    calls it for a zero prefix. -/
 def BlockCodec.RoundTrips (b : BlockCodec) : Prop :=
-  ∀ x z, b.encB x = .ok z → b.decB z x.length = .ok x
+  ∀ x n z, x ≠ [] → blockBound x.length ≤ n → b.encB x n = .ok z → b.decB z x.length = .ok x
+
+/-- trusted base, part 2: with a destination of at least the bound the block encoder does not fail -/
+def BlockCodec.TotalAtBound (b : BlockCodec) : Prop :=
+  ∀ x n, blockBound x.length ≤ n → ∃ z, b.encB x n = .ok z
+
+/-- lz4/lz4.go Encode: `buf := make([]byte, lz4.CompressBlockBound(len(data)+4))`, the block goes to
+    `buf[4:]`: the destination handed to CompressBlock has this many bytes -/
+def lz4DstLen (n : Nat) : Nat := blockBound (n + 4) - 4
 
 def lz4Encode (b : BlockCodec) (data : Bytes) : Except Unit Bytes :=
-  match b.encB data with
+  match b.encB data (lz4DstLen data.length) with
   | .error e => .error e
   | .ok z => .ok (be32 data.length ++ z)
 
